@@ -104,13 +104,19 @@ let () = iter_lines (fun line ->
           Buffer.add_string buf ";" end
       done;
       print_endline (Buffer.contents buf) in
-    (match TableO2.insert_all hash TableO2.empty_table lz keys with
+    let natural = (budget = -2) in
+    let nkeys = List.length keys in
+    let fill = if natural then List.filteri (fun i _ -> i < nkeys - 1) keys else keys in
+    (match TableO2.insert_all hash TableO2.empty_table lz fill with
      | Ok t0 ->
        let t0 = List.fold_left (fun t k ->
          match TableO2.locate_from (nat_of_int (pow2 l)) t (zi 0) (z_of_string k) with
          | Some (b, slot) -> (match TableO2.remove_at t b slot with Ok t' -> t' | _ -> t)
          | None -> t) t0 rem in
-       (match TableO2.migrate_from_c hash (nat_of_int (pow2 l)) t0 TableO2.empty_table lz l1z (zi 0) (if budget < 0 then big else zi budget) (zi 0) with
+       (* natural growth (pvAddGrow): the new element goes into the new table FIRST, then the old generation is relocated *)
+       let tnew0 = if natural then (match TableO2.add_nogrow TableO2.empty_table l1z (hash (zi nkeys)) (zi nkeys) with Ok t -> t | _ -> TableO2.empty_table)
+                   else TableO2.empty_table in
+       (match TableO2.migrate_from_c hash (nat_of_int (pow2 l)) t0 tnew0 lz l1z (zi 0) (if budget < 0 then big else zi budget) (zi 0) with
         | Ok (((t0', t1), c1), thrown) ->
           let gens1 = if thrown then 2 else 1 in
           if int_of_string l2 = 0 then dump t1 l1 c1 gens1
@@ -147,13 +153,18 @@ let () = iter_lines (fun line ->
           Buffer.add_string buf ";" end
       done;
       print_endline (Buffer.contents buf) in
-    (match TableP4.pinsert_all hc hash (TableP4.pempty_table hc mm) lz keys with
+    let natural = (budget = -2) in
+    let nkeys = List.length keys in
+    let fill = if natural then List.filteri (fun i _ -> i < nkeys - 1) keys else keys in
+    (match TableP4.pinsert_all hc hash (TableP4.pempty_table hc mm) lz fill with
      | Ok t0 ->
        let t0 = List.fold_left (fun t k ->
          match TableP4.plocate_from (nat_of_int (pow2 l)) t (zi 0) (z_of_string k) with
          | Some (b, idx) -> (match TableP4.premove_at hc mm t b idx with Ok t' -> t' | _ -> t)
          | None -> t) t0 rem in
-       (match TableP4.pmigrate_from_c hc mm hash (nat_of_int (pow2 l)) t0 (TableP4.pempty_table hc mm) lz l1z (zi 0)
+       let tnew0 = if natural then (match TableP4.padd_nogrow hc (TableP4.pempty_table hc mm) l1z (hash (zi nkeys)) (zi nkeys) with Ok t -> t | _ -> TableP4.pempty_table hc mm)
+                   else TableP4.pempty_table hc mm in
+       (match TableP4.pmigrate_from_c hc mm hash (nat_of_int (pow2 l)) t0 tnew0 lz l1z (zi 0)
                 (if budget < 0 then big else zi budget) (zi 0) with
         | Ok (((t0', t1), c1), thrown) ->
           let gens1 = if thrown then 2 else 1 in
